@@ -741,6 +741,63 @@ class Live:
         self.world = World(self.impl, self.engine, self.config)
         self.world.seed()
 
+    async def _answer(self, op):
+        """One request through the real handler; exceptions mapped to the error enum (Unsupported propagates: fail closed)."""
+        fn = getattr(self.world, 'op_' + str(op.get('op')), None)
+        if fn is None:
+            return {'err': 'BadRequest'}
+        try:
+            return {'ok': await fn(op)}
+        except Unsupported:
+            raise
+        except Exception as e:  # noqa: BLE001
+            res = {'err': canon_error(e)}
+            if self.config.get('debug'):
+                res['detail'] = f'{type(e).__name__}: {getattr(e, "reason", None) or getattr(e, "text", None) or e}'[:300]
+            return res
+
+    async def _race(self, op, ent):
+        """{"op":"race","first":A,"second":B,"pause":k}: A and B overlap (batchdb/race.py).  Result
+        {"ok":{"race":{"first":answer of A,"second":answer of B,"order":completion order,"mode":"overlap"|"serial", ...}}};
+        ent['obs_mid'] = observable projection when the first of the two requests had finished."""
+        from batchdb import race as R
+        a, b, k = op.get('first'), op.get('second'), op.get('pause')
+        ok = (isinstance(a, dict) and isinstance(b, dict) and a.get('op') in R.RACE_OPS and b.get('op') in R.RACE_OPS
+              and isinstance(k, int) and not isinstance(k, bool) and 0 <= k <= R.MAX_PAUSE and 'time' not in a and 'time' not in b)
+        if not ok:
+            return {'err': 'BadRequest'}
+        w = self.world
+        saved = R.save_engine(self.engine)
+        mid = {}
+
+        def first_done():
+            mid['obs'] = w.obs()
+        ctl = R.RaceControl(self.engine, k, first_done)
+        w.db.race = ctl
+        try:
+            done = await ctl.run(lambda: self._answer(a), lambda: self._answer(b))
+        finally:
+            w.db.race = None
+        info = {'pause': k, 'events': ctl.events[:12]}
+        if done:
+            info.update(mode='overlap', first=ctl.first.result, second=ctl.second.result, order=list(ctl.order), paused=ctl.paused,
+                        admissible=ctl.admissible, blocked_on=ctl.blocked_on, prefix=ctl.first.kinds[:k] if ctl.paused else None,
+                        stale_reads=ctl.first.stale_reads + ctl.second.stale_reads, statements=[ctl.first.kinds, ctl.second.kinds])
+            what = 'overlap:' + ('blocked' if ctl.blocked_on else ('paused' if ctl.paused else ('inadmissible' if not ctl.admissible else 'not-reached')))
+        else:
+            # outside the modelled part of InnoDB: back to the state before the race, then one after the other
+            R.restore_engine(self.engine, saved)
+            self.engine.sessions[:] = []
+            ra = await self._answer(a)
+            mid['obs'] = w.obs()
+            rb = await self._answer(b)
+            info.update(mode='serial', reason=ctl.inconclusive, first=ra, second=rb, order=['first', 'second'], paused=False,
+                        admissible=ctl.admissible, blocked_on=ctl.blocked_on, stale_reads=0)
+            what = 'serial:' + str(ctl.inconclusive).split(':')[0][:40]
+        self.stats['race/' + what] = self.stats.get('race/' + what, 0) + 1
+        ent['obs_mid'] = mid.get('obs')
+        return {'ok': {'race': info}}
+
     async def step(self, op, want_obs=True):
         w = self.world
         engine = self.engine
@@ -752,18 +809,11 @@ class Live:
         else:
             Clock.now = Clock.wall
         engine.now_msec = Clock.wall
-        fn = getattr(w, 'op_' + str(name), None)
-        if fn is None:
-            res = {'err': 'BadRequest'}
+        extra = {}
+        if name == 'race':
+            res = await self._race(op, extra)
         else:
-            try:
-                res = {'ok': await fn(op)}
-            except Unsupported:
-                raise
-            except Exception as e:  # noqa: BLE001
-                res = {'err': canon_error(e)}
-                if self.config.get('debug'):
-                    res['detail'] = f'{type(e).__name__}: {getattr(e, "reason", None) or getattr(e, "text", None) or e}'[:300]
+            res = await self._answer(op)
         # no connection may keep uncommitted writes after an op
         for s in list(engine.sessions):
             if s.undo.entries:
@@ -772,6 +822,7 @@ class Live:
         key = name if 'ok' in res else f"{name}!{res['err']}"
         self.stats[key] = self.stats.get(key, 0) + 1
         ent = {'result': res}
+        ent.update(extra)
         if want_obs:
             ent['obs'] = w.obs()
         return ent
